@@ -94,7 +94,8 @@ def h_partition_at(P):
 
 def jobs(tier):
     # the PartitionedArray constructor rejects an empty partition list: P >= 1 is the class invariant
-    return [(h_partition_at, (P,), 900) for P in range(1, 5 if tier == 'quick' else 7)] + range_jobs(tier)
+    from . import mvirt
+    return [(h_partition_at, (P,), 900) for P in range(1, 5 if tier == 'quick' else 7)] + range_jobs(tier) + mvirt.jobs(tier)
 
 
 def main(report, tier):
